@@ -543,20 +543,36 @@ func (in *vAckInst) scrub(x *vAckRun) {
 	in.v.slock.state = STATE_LEADER
 	in.v.db.status = STATE_LEADER
 	in.ch.closed = false
-	x.pullJournal()
-	x.freedRegistered(true)
-	_ = in.adb.FlushDB()
-	for _, key := range x.keys {
-		for i := 0; i < 64; i++ {
-			ks := x.keySnap(key)
-			if len(ks.holds) == 0 {
-				break
+	// release everything: settled holds by an unlock-first UNLOCK; ack-pending ones are failed by FlushDB when registered and by their
+	// timeout otherwise (an unlock-first UNLOCK does not take them any more, 804e6dc); every release can grant queued requests: repeat
+	// until no key has a hold or a queued request left
+	for round := 0; round < 120; round++ {
+		x.pullJournal()
+		x.freedRegistered(true)
+		_ = in.adb.FlushDB()
+		busy := false
+		for _, key := range x.keys {
+			for i := 0; i < 64; i++ {
+				ks := x.keySnap(key)
+				if len(ks.holds) == 0 {
+					break
+				}
+				p := in.v.conns[0]
+				cmd := &protocol.LockCommand{Command: protocol.Command{Magic: protocol.MAGIC, Version: protocol.VERSION, CommandType: protocol.COMMAND_UNLOCK, RequestId: vId16(900000000 + i)},
+					Flag: 1, LockId: vId16(99999), LockKey: vId16(key)}
+				_ = p.ProcessLockCommand(cmd)
+				if after := x.keySnap(key); len(after.holds) >= len(ks.holds) && after.locked >= ks.locked {
+					break // currentLock is ack-pending: wait for FlushDB / its timeout
+				}
 			}
-			p := in.v.conns[0]
-			cmd := &protocol.LockCommand{Command: protocol.Command{Magic: protocol.MAGIC, Version: protocol.VERSION, CommandType: protocol.COMMAND_UNLOCK, RequestId: vId16(900000000 + i)},
-				Flag: 1, LockId: vId16(99999), LockKey: vId16(key)}
-			_ = p.ProcessLockCommand(cmd)
+			if ks := x.keySnap(key); len(ks.holds) > 0 || len(ks.waits) > 0 {
+				busy = true
+			}
 		}
+		if !busy {
+			break
+		}
+		in.v.tick()
 	}
 	for i := 0; i < 24; i++ {
 		in.v.tick()
@@ -640,9 +656,7 @@ func (g *vAckGen) lockEv() vAckEv {
 	o.expried = vPick(r, []int{1, 2, 3, 5, 8, 20}, []int{10, 15, 20, 20, 20, 15})
 	o.count = vPick(r, []int{0, 1, 2}, []int{55, 30, 15})
 	o.rcount = vPick(r, []int{0, 1, 2}, []int{60, 25, 15})
-	if o.tflag != 0 && r.Intn(100) < 70 {
-		o.rcount = 0 // a re-entrant require-ack LOCK leaves the reach of the model soon (table entry without reference): keep it rare
-	}
+
 	if g.profile == 1 { // queue-heavy: exclusive, long waits
 		o.count = 0
 		o.timeout = vPick(r, []int{3, 5, 9}, []int{30, 40, 30})
@@ -670,19 +684,14 @@ func (g *vAckGen) lockEv() vAckEv {
 	return e
 }
 
-// doLock: a require-ack LOCK answered SUCCED at once (re-entrant on a journalled hold) leaves a journal record that points at the lock
-// object without holding a reference to it; the walk delivers it before anything can free the object (see FINISH).
+// doLock: one generated LOCK. (Before /repo e4ad793 a re-entrant require-ack LOCK on a journalled hold left a journal record pointing at
+// the lock object without a reference; the detectors C11:table-entry-of-freed-lock / C11:live-hold-object-freed stay in place.)
 func (g *vAckGen) doLock() {
 	x := g.x
 	e := g.lockEv()
 	ob := x.do(e)
 	if e.op.tflag&vAckFlag != 0 && strings.Contains(ob, fmt.Sprintf(":%d:0:", e.op.req)) {
 		x.out.stat("reentrant-ack-lock")
-		x.tainted = true
-		for len(x.journal[e.op.key]) > 0 && !x.abort {
-			k, _ := x.oldestKey()
-			x.do(vAckEv{kind: "P", key: k})
-		}
 	}
 }
 
@@ -910,9 +919,10 @@ func vAckMain(t *testing.T) {
 		out.emit(line, strings.Join(x.obs, ";"))
 		x.mon.flush()
 		for i, e := range x.evs {
-			if e.kind == "PW" || (e.kind == "L" && e.op.tflag&vAckFlag != 0 && i < len(x.obs) && strings.Contains(x.obs[i], fmt.Sprintf(":%d:0:", e.op.req))) {
+			if e.kind == "PW" {
 				x.tainted = true
 			}
+			_ = i
 		}
 		ok := true
 		func() {
